@@ -414,16 +414,62 @@ MAY_THROW_ALLOW = {'lock': 'std::mutex::lock may throw std::system_error; unrela
 _ENT = {}
 
 
+COMPOSABLE_PREFIXES = ('try_allocate', 'try_deallocate', 'try_reserve')
+
+
 def try_functions(db):
+    """the composable (non-throwing, non-growing) allocation interface; other functions that merely start with try_ (a mutex
+    wrapper's try_lock, ...) are not part of it"""
     out = []
     for f in db.fns.values():
         if f.pattern or f.name.startswith('verif_'):
             continue
-        if f.short.startswith('try_') and f.cls.startswith('foonathan::memory'):
+        if not f.short.startswith(COMPOSABLE_PREFIXES):
+            continue
+        if f.cls.startswith('foonathan::memory'):
             out.append(f)
-        elif f.short.startswith('try_') and '::detail::' in f.name and not f.cls:
+        elif '::detail::' in f.name and not f.cls:
             out.append(f)
     return out
+
+
+GROWERS = ('allocate_node', 'allocate_array', 'allocate', 'allocate_block', 'allocate_impl', 'reserve_memory')
+
+
+def check_failed_growth(run, db):
+    """a request that fails because the upstream request fails leaves the allocator as it was: in the throwing allocation functions no
+    data member is written before a call to an allocation function that can throw, on the path where that call throws"""
+    n = 0
+    seen = set()
+    for f in db.fns.values():
+        if f.pattern or not f.name.startswith('foonathan::memory') or f.noexcept == 'yes' or f.short not in GROWERS or not f.cls:
+            continue
+        try:
+            S = fwd.summarize(f, db=db, exceptional=True, roles={}, no_forward=True)
+        except sym.PathLimit as e:
+            run.broke(str(e))
+            continue
+        n += 1
+        bad = set()
+        for s in S:
+            if s.end != 'propagate' or not s.throws:
+                continue
+            tt = s.throws[2] if len(s.throws) > 2 and isinstance(s.throws[2], dict) else {}
+            if not str(tt.get('short', '')).startswith('allocate'):
+                continue            # the library's own size checks may follow a growth (the new block is kept); upstream failure is the subject here
+            tc = s.throw_at_call if s.throw_at_call is not None else 10 ** 9
+            for w in s.writes:
+                lhs = sym.strip_casts(w[2].get('lhs') or {}) if w[2].get('ev') in ('assign', 'incdec') else {}
+                if lhs.get('k') == 'member' and w[0].startswith('this.') and w[4] <= tc:
+                    bad.add(w[0])
+        inst = '%s [%s]' % (f.display, db.config)
+        if bad:
+            run.violation('R-THROW.7', inst, f.loc, '%s written before the upstream request `%s` that can fail: a failed request changes the allocator '
+                          '(later requests are sized / routed differently)' % (', '.join(sorted(bad)), 'allocate...'),
+                          site={'function': '%s::%s' % (cls_template(f.cls), f.short), 'role': 'no write before a failing upstream request'})
+        else:
+            run.ok('R-THROW.7', inst, f.loc, 'no data member written before an upstream request that throws')
+    return n
 
 
 def check_try(run, db):
@@ -529,6 +575,7 @@ def run(run):
     run.rule('R-THROW.3', 'try_ functions are noexcept', floor=60)
     run.rule('R-THROW.4', 'try_ functions contain no may-throw event', floor=60)
     run.rule('R-THROW.5', 'try_ functions do not reach a block source or a throwing allocation function', floor=60)
+    run.rule('R-THROW.7', 'a failing upstream request leaves the data members of the requesting allocator unwritten', floor=40)
     run.rule('R-THROW.6', 'size checks dominate the first state change in the listed entry points', floor=10)
     run.explanation = ('Never-null is a least fixpoint over the extracted call graph with path-sensitive null tests; the try_ half is '
                        'noexcept + no may-throw event + call-graph unreachability of block sources; exception types and handler calls are structural.')
@@ -548,6 +595,8 @@ def run(run):
             run.broke('exception constructors not found [%s]' % cfg)
         if check_try(run, db) < 40:
             run.broke('try_ functions not found [%s]' % cfg)
+        if check_failed_growth(run, db) < 30:
+            run.broke('throwing allocation functions not found for R-THROW.7 [%s]' % cfg)
         if check_checks_first(run, db) < 8:
             run.broke('listed entry points for R-THROW.6 not found [%s]' % cfg)
     fixtures.expect_fire(run, 'c03_bad.cpp', _fixture, 'R-NN')
